@@ -1,4 +1,102 @@
-import DesperModel.World
+import DesperProofs.Lemmas.WorldWalk
+import DesperProofs.Lemmas.WorldFrame
+/-
+  C06 — Type queries match exactly the subclasses, once each.
+
+  Model: DesperModel/World.lean.  `visit U t` is the pop order of the `fringe` loops of world.py,
+  `Sub U t' t` the subclass relation (`t'` is `t` or a direct or indirect subclass of `t`), for any
+  hierarchy Python accepts (`U.WF`: bases are created before their subclasses), multiple
+  inheritance and diamonds included.  `get` listing each pair once is `C01_get_once` (it needs the
+  table invariant of C01).
+-/
 open Desper Desper.World
 
-theorem C06_placeholder : (1:Nat) = 1 := rfl
+/-- The walk reaches exactly the classes that are `t` or a direct or indirect subclass of `t`. -/
+theorem C06_walk_sound_complete (U : Universe) (hU : U.WF) (t x : Ty) :
+    x ∈ visit U t ↔ Sub U x t := mem_visit U hU t x
+
+/-- The queried type itself is tried first (this is what gives the exact type priority). -/
+theorem C06_exact_first (U : Universe) (t : Ty) : ∃ rest, visit U t = t :: rest := visit_head U t
+
+/-- `has_component(e, t)` holds iff the entity owns a component whose type is `t` or a subclass. -/
+theorem C06_has_component (U : Universe) (hU : U.WF) (s : St) (e : Ent) (t : Ty) :
+    hasComponent U s e t = true ↔ ∃ st c, Sub U st t ∧ Dict.get? (row s e) st = some c := by
+  simp only [hasComponent, List.any_eq_true, Option.isSome_iff_exists]
+  constructor
+  · rintro ⟨st, hst, c, hc⟩; exact ⟨st, c, (mem_visit U hU t st).mp hst, hc⟩
+  · rintro ⟨st, c, hs, hc⟩; exact ⟨st, (mem_visit U hU t st).mpr hs, c, hc⟩
+
+/-- `get_component(e, t)`: the result is a component of `e` whose type is `t` or a subclass;
+it is `None` only if there is no such component; and when `e` owns a component of exactly type
+`t`, that one is returned. -/
+theorem C06_get_component (U : Universe) (hU : U.WF) (s : St) (e : Ent) (t : Ty) :
+    (∀ c, getComponent U s e t = some c → ∃ st, Sub U st t ∧ Dict.get? (row s e) st = some c) ∧
+    (getComponent U s e t = none ↔ ∀ st, Sub U st t → Dict.get? (row s e) st = none) ∧
+    (∀ c, Dict.get? (row s e) t = some c → getComponent U s e t = some c) := by
+  refine ⟨?_, ?_, ?_⟩
+  · intro c h
+    obtain ⟨st, hst, hc⟩ := List.exists_of_findSome?_eq_some h
+    exact ⟨st, (mem_visit U hU t st).mp hst, hc⟩
+  · simp only [getComponent, List.findSome?_eq_none_iff]
+    constructor
+    · intro h st hs; exact h st ((mem_visit U hU t st).mpr hs)
+    · intro h st hst; exact h st ((mem_visit U hU t st).mp hst)
+  · intro c hc
+    obtain ⟨rest, hr⟩ := visit_head U t
+    simp [getComponent, hr, List.findSome?_cons, hc]
+
+/-- `get_processor(t)` likewise, over the processors of the world. -/
+theorem C06_get_processor (U : Universe) (hU : U.WF) (s : St) (t : Ty) :
+    (∀ p, getProcessor U s t = some p → ∃ st, Sub U st t ∧ Dict.get? s.procs st = some p) ∧
+    (getProcessor U s t = none ↔ ∀ st, Sub U st t → Dict.get? s.procs st = none) ∧
+    (∀ p, Dict.get? s.procs t = some p → getProcessor U s t = some p) := by
+  refine ⟨?_, ?_, ?_⟩
+  · intro c h
+    obtain ⟨st, hst, hc⟩ := List.exists_of_findSome?_eq_some h
+    exact ⟨st, (mem_visit U hU t st).mp hst, hc⟩
+  · simp only [getProcessor, List.findSome?_eq_none_iff]
+    constructor
+    · intro h st hs; exact h st ((mem_visit U hU t st).mpr hs)
+    · intro h st hst; exact h st ((mem_visit U hU t st).mp hst)
+  · intro c hc
+    obtain ⟨rest, hr⟩ := visit_head U t
+    simp [getProcessor, hr, List.findSome?_cons, hc]
+
+/-- `remove_component(e, t)` detaches exactly one component — of a type that is `t` or a subclass,
+of exactly type `t` when there is one — or none when nothing matches (state unchanged). -/
+theorem C06_remove_one (U : Universe) (hU : U.WF) (s : St) (e : Ent) (t : Ty) :
+    ((∀ st, Sub U st t → Dict.get? (row s e) st = none) →
+        removeComponent U s e t = (s, .ok, none)) ∧
+    (∀ c, (removeComponent U s e t).2.2 = some c →
+        ∃ st, Sub U st t ∧ Dict.get? (row s e) st = some c ∧
+          (∀ c', Dict.get? (row s e) t = some c' → st = t) ∧
+          ∀ x, Dict.get? (row (removeComponent U s e t).1 e) x =
+                if st = x then none else Dict.get? (row s e) x) := by
+  rcases removeComponent_spec U s e t with ⟨hf, heq⟩ | ⟨st, c, hf, hc, hret, hsame⟩
+  · refine ⟨fun _ => heq, ?_⟩
+    intro c hc; rw [heq] at hc; simp at hc
+  · refine ⟨?_, ?_⟩
+    · intro hnone
+      have hm := List.mem_of_find?_eq_some hf
+      have := hnone st ((mem_visit U hU t st).mp hm)
+      rw [this] at hc; simp at hc
+    · intro c' hc'
+      rw [hret] at hc'; simp at hc'; subst hc'
+      refine ⟨st, (mem_visit U hU t st).mp (List.mem_of_find?_eq_some hf), hc, ?_, ?_⟩
+      · intro c'' hc''
+        obtain ⟨rest, hr⟩ := visit_head U t
+        rw [hr, List.find?_cons] at hf
+        simp only [hc'', Option.isSome_some] at hf
+        simpa using hf.symm
+      · intro x
+        rw [row_of_ents hsame.ents, row_detach]
+        simp
+
+/-! non-vacuity: a diamond D(B, C), B(A), C(A) -/
+private def exU : Universe :=
+  { classes := [{ bases := [] }, { bases := [0] }, { bases := [0] }, { bases := [1, 2] }],
+    mapping := fun _ => none, objTy := fun _ => some 3, raises := fun _ _ _ => none }
+
+example : exU.WF ∧ visit exU 0 = [0, 2, 3, 1, 3] ∧ Sub exU 3 0 :=
+  ⟨exU.wf_of_wfb (by decide), by decide,
+   .step (b := 1) (by decide) (.step (b := 0) (by decide) (.refl 0))⟩
